@@ -21,6 +21,7 @@ pub struct L2State {
     pub reopen_after_append: bool,
     pub pending_trunc_observe: bool,
     pub trunc_observed: bool,
+    pub sparse: bool,
     pub pointer_seen: bool,
     /// a bare truncation happened and nothing was appended since: the in-process last term is stale
     pub bare_strip_pending: bool,
@@ -205,6 +206,12 @@ fn mk_entry(st: &mut L2State, size: &SizeClass, forced: Option<u64>) -> (Entry<C
     let seed = st.m.make_value(index, term, 16);
     let payload = payload_of_len(len, &seed);
     let bytes = payload_bytes(&payload);
+    if let SizeClass::FileEnd(_) = size {
+        let l = record_len(index, term, bytes.len() as u64);
+        if st.m.open_cursor + l + 2 >= st.m.open_file_len && st.m.open_cursor + l <= st.m.open_file_len + 2 {
+            st.labels.insert("record_ends_at_allocated_file_end".into());
+        }
+    }
     (entry(index, term, payload), bytes.len() as u64, bytes, aimed)
 }
 
@@ -293,7 +300,11 @@ async fn run_phase_ops(h: &StoreHandle, st: &mut L2State, ops: &[LogOp], pos: &m
                         st.labels.insert("truncation_with_pointer_file_present".into());
                     }
                     st.m.term += 1;
-                    observe(h, st, &format!("{} (right after delete-from {})", what, k), false).await?;
+                    if !st.sparse {
+                        observe(h, st, &format!("{} (right after delete-from {})", what, k), false).await?;
+                    } else {
+                        st.labels.insert("reappend_right_after_delete_from_without_a_read".into());
+                    }
                     let forced: Vec<u64> = (0..*count as usize)
                         .map(|i| {
                             let old = removed.get(i).map(|e| e.value_len).unwrap_or(60);
@@ -486,6 +497,7 @@ async fn run_phase_ops(h: &StoreHandle, st: &mut L2State, ops: &[LogOp], pos: &m
                     st.m.first_index = idx + 1;
                     st.m.file_start_index = idx;
                     st.m.file_first_entry_pos = 0;
+                    st.m.reset_open_file();
                     st.labels.insert("install_pointer_beyond_log".into());
                 }
                 // pointer writes are fire-and-forget inside the manager: settle before observing
@@ -493,7 +505,11 @@ async fn run_phase_ops(h: &StoreHandle, st: &mut L2State, ops: &[LogOp], pos: &m
             }
         }
         let check_last = !st.bare_strip_pending;
-        observe(h, st, &what, check_last).await?;
+        if st.sparse && !matches!(op, LogOp::InstallPointer { .. }) {
+            st.labels.insert("sparse_observation".into());
+        } else {
+            observe(h, st, &what, check_last).await?;
+        }
         if st.small_files {
             let n = log_files_on_disk(&st.dir);
             if n >= 2 {
@@ -538,6 +554,7 @@ pub fn run_l2(case: &LogCase, dir: &std::path::Path) -> L2State {
         reopen_after_append: false,
         pending_trunc_observe: false,
         trunc_observed: false,
+        sparse: case.sparse_observe,
         pointer_seen: false,
         bare_strip_pending: false,
         roll_mode: case.ops.iter().any(|o| matches!(o, LogOp::FillToRollover { .. })),
@@ -551,6 +568,7 @@ pub fn run_l2(case: &LogCase, dir: &std::path::Path) -> L2State {
         st.small_files = true;
     }
     st.m.term = 1;
+    st.m.file_end_enabled = case.aim_file_end;
     let mut pos = 0usize;
     let mut err: Option<String> = None;
     let mut first = true;
